@@ -163,7 +163,11 @@ impl<M: Manager> UnreadyObject<'_, M> {
 impl<M: Manager> Drop for UnreadyObject<'_, M> {
     fn drop(&mut self) {
         if let Some(mut inner) = self.inner.take() {
+            #[cfg(deadpool_verif)]
+            crate::verif::point("unready.size_dec");
             self.pool.slots.lock().unwrap().size -= 1;
+            #[cfg(deadpool_verif)]
+            crate::verif::point("unready.detach");
             self.pool.manager.detach(&mut inner.obj);
         }
     }
@@ -323,6 +327,10 @@ impl<M: Manager, W: From<Object<M>>> Pool<M, W> {
         let users_guard = DropGuard(|| {
             let _ = self.inner.users.fetch_sub(1, Ordering::Relaxed);
         });
+        #[cfg(deadpool_verif)]
+        let verif_unwind_users = crate::verif::PointOnDrop("get.unwind_users");
+        #[cfg(deadpool_verif)]
+        crate::verif::point("get.acquire");
 
         let non_blocking = match timeouts.wait {
             Some(t) => t.as_nanos() == 0,
@@ -349,8 +357,12 @@ impl<M: Manager, W: From<Object<M>>> Pool<M, W> {
             )
             .await?
         };
+        #[cfg(deadpool_verif)]
+        let verif_unwind_permit = crate::verif::PointOnDrop("get.unwind_permit");
 
         let inner_obj = loop {
+            #[cfg(deadpool_verif)]
+            crate::verif::point("get.pop");
             let inner_obj = match self.inner.config.queue_mode {
                 QueueMode::Fifo => self.inner.slots.lock().unwrap().vec.pop_front(),
                 QueueMode::Lifo => self.inner.slots.lock().unwrap().vec.pop_back(),
@@ -365,6 +377,10 @@ impl<M: Manager, W: From<Object<M>>> Pool<M, W> {
             }
         };
 
+        #[cfg(deadpool_verif)]
+        verif_unwind_permit.disarm();
+        #[cfg(deadpool_verif)]
+        verif_unwind_users.disarm();
         users_guard.disarm();
         permit.forget();
 
@@ -439,6 +455,8 @@ impl<M: Manager, W: From<Object<M>>> Pool<M, W> {
             pool: &self.inner,
         };
 
+        #[cfg(deadpool_verif)]
+        crate::verif::point("create.size_inc");
         self.inner.slots.lock().unwrap().size += 1;
 
         // Apply post_create hooks
@@ -466,6 +484,8 @@ impl<M: Manager, W: From<Object<M>>> Pool<M, W> {
         if self.inner.semaphore.is_closed() {
             return;
         }
+        #[cfg(deadpool_verif)]
+        crate::verif::point("resize.lock");
         let mut slots = self.inner.slots.lock().unwrap();
         let old_max_size = slots.max_size;
         slots.max_size = max_size;
@@ -558,6 +578,8 @@ impl<M: Manager, W: From<Object<M>>> Pool<M, W> {
     /// This operation resizes the pool to 0.
     pub fn close(&self) {
         self.resize(0);
+        #[cfg(deadpool_verif)]
+        crate::verif::point("close.sem_close");
         self.inner.semaphore.close();
     }
 
@@ -581,6 +603,29 @@ impl<M: Manager, W: From<Object<M>>> Pool<M, W> {
             size: slots.size,
             available,
             waiting,
+        }
+    }
+
+    /// Snapshot of the internal counters (verification builds only).
+    #[cfg(deadpool_verif)]
+    pub fn verif_snapshot(&self) -> crate::verif::ManagedSnapshot {
+        let slots = self.inner.slots.lock().unwrap();
+        crate::verif::ManagedSnapshot {
+            permits: self.inner.semaphore.available_permits(),
+            closed: self.inner.semaphore.is_closed(),
+            size: slots.size,
+            max_size: slots.max_size,
+            idle_len: slots.vec.len(),
+            users: self.inner.users.load(Ordering::Relaxed),
+        }
+    }
+
+    /// Visits the idle objects in queue order (verification builds only).
+    #[cfg(deadpool_verif)]
+    pub fn verif_visit_idle(&self, mut f: impl FnMut(&M::Type, &Metrics)) {
+        let slots = self.inner.slots.lock().unwrap();
+        for obj in slots.vec.iter() {
+            f(&obj.obj, &obj.metrics);
         }
     }
 
@@ -633,26 +678,38 @@ where
 impl<M: Manager> PoolInner<M> {
     fn return_object(&self, mut inner: ObjectInner<M>) {
         let _ = self.users.fetch_sub(1, Ordering::Relaxed);
+        #[cfg(deadpool_verif)]
+        crate::verif::point("return.lock");
         let mut slots = self.slots.lock().unwrap();
         if slots.size <= slots.max_size {
             slots.vec.push_back(inner);
             drop(slots);
+            #[cfg(deadpool_verif)]
+            crate::verif::point("return.add_permits");
             self.semaphore.add_permits(1);
         } else {
             slots.size -= 1;
             drop(slots);
+            #[cfg(deadpool_verif)]
+            crate::verif::point("return.detach");
             self.manager.detach(&mut inner.obj);
         }
     }
     fn detach_object(&self, obj: &mut M::Type) {
         let _ = self.users.fetch_sub(1, Ordering::Relaxed);
+        #[cfg(deadpool_verif)]
+        crate::verif::point("take.lock");
         let mut slots = self.slots.lock().unwrap();
         let add_permits = slots.size <= slots.max_size;
         slots.size -= 1;
         drop(slots);
         if add_permits {
+            #[cfg(deadpool_verif)]
+            crate::verif::point("take.add_permits");
             self.semaphore.add_permits(1);
         }
+        #[cfg(deadpool_verif)]
+        crate::verif::point("take.detach");
         self.manager.detach(obj);
     }
 }
